@@ -15,19 +15,133 @@ RULE = (
     "function-less code and data; entries on the first block of each function), whole-function and whole-block "
     "deletions with and without retarget_to_proxy, edits at function boundaries; per case functionBlocks, "
     "functionEntries and functionNames after apply() are compared, in section coordinates, with the attribution the "
-    "listing gives every piece of code; the side cache functions_by_block is part of the per-operation correspondence"
+    "listing gives every piece of code; the side cache functions_by_block is part of the per-operation correspondence; "
+    "plus: 1-3 functions added with register_insert_function (single- and multi-block bodies, some called from "
+    "patches inserted in the same rewrite) to modules with zero to three functions and with empty or absent "
+    "function tables, judged directly on functionBlocks / functionEntries / functionNames"
 )
 ASSUMPTIONS = [
     "a block kept as a zero-sized block (nowhere to move its symbols or edges) keeps its function and entry role",
     "an entry deleted with retarget_to_proxy is not inherited by the next block (the function is being turned into an external one)",
-    "register_insert_function is not exercised by the generator yet (its stub block is covered by the correspondence of _insert_function_stub only through apply() of C07 cases)",
+    "register_insert_function is judged by a direct oracle on the three tables (and on the bytes of the new function's blocks); the Lean model covers its stub block only through the per-operation correspondence",
 ]
 TRUSTED = ["harness/emodify.py, harness/irdump.py"]
 
 
+FUNC_BODIES = [
+    "nop\nret",
+    "movl $5, %eax\nret",
+    "cmpl $0, %eax\njne .Lx\nmovl $1, %eax\n.Lx:\nret",
+    "pushq %rax\npopq %rax\nret",
+    "call ext_a\nret",
+]
+
+
+def gen_insert_function(rng):
+    import emodify
+
+    case = emodify.gen_case(rng, nblocks=rng.randint(1, 4), with_funcs=rng.random() < 0.6, nedits=0)
+    if rng.random() < 0.5:
+        case["function_tables"] = True      # the tables exist even when the module has no function yet
+    new = [{"name": "newfn%d" % i, "body": rng.randrange(len(FUNC_BODIES))} for i in range(rng.randint(1, 3))]
+    callers = []
+    code = [i for i, d in enumerate(case["text"]) if d["kind"] == "code"]
+    if code and rng.random() < 0.5:
+        callers.append({"block": rng.choice(code), "callee": rng.choice(new)["name"]})
+    return {"insert_function": True, "case": case, "new": new, "callers": callers}
+
+
+def check_insert_function(ctx, g):
+    import json
+    import logging
+
+    import gtirb
+    import gtirb_functions
+
+    import emodify
+    import gtirb_rewriting._auxdata as A
+    from gtirb_rewriting import RewritingContext
+    from gtirb_rewriting.assembler import Assembler
+
+    logging.disable(logging.CRITICAL)
+    case = LE.strip_case(g["case"])
+    payload = dict(g, case=case)
+    B = emodify.build(json.loads(json.dumps(case)))
+    m = B.m
+    ctx.case(payload, sample={"new": g["new"], "callers": g["callers"], "functions": len({d.get("func") for d in case["text"] if d.get("func") is not None})}
+             if len(ctx.samples) < 6 else None, nontrivial=True)
+    ctx.count("insert-function:%d" % len(g["new"]))
+    ctx.count("tables:" + ("present" if A.function_names.get(m) is not None else "absent"))
+
+    def tables():
+        fb, fe, fn = A.function_blocks.get(m) or {}, A.function_entries.get(m) or {}, A.function_names.get(m) or {}
+        return ({u: set(map(id, v)) for u, v in fb.items()}, {u: set(map(id, v)) for u, v in fe.items()}, {u: id(v) for u, v in fn.items()})
+
+    before = tables()
+    rc = RewritingContext(m, gtirb_functions.Function.build_functions(m))
+    syms = {}
+    for n in g["new"]:
+        syms[n["name"]] = rc.register_insert_function(n["name"], emodify.make_patch(FUNC_BODIES[n["body"]]))
+    for c in g["callers"]:
+        rc.insert_at(B.blocks[c["block"]], 0, emodify.make_patch("call %s" % c["callee"]))
+    try:
+        rc.apply()
+    except Exception as e:  # noqa: BLE001
+        ctx.violation("C06:insert-function-raises", "apply() with register_insert_function raised %s: %s" % (type(e).__name__, str(e)[:120]), payload)
+        return
+    fb = A.function_blocks.get(m) or {}
+    fe = A.function_entries.get(m) or {}
+    fn = A.function_names.get(m) or {}
+    owner = {}
+    for u, blocks in fb.items():
+        for b in blocks:
+            if id(b) in owner:
+                ctx.violation("C06:block-in-two-functions", "a block is in two functions after register_insert_function", payload)
+            owner[id(b)] = u
+    for n in g["new"]:
+        y = syms[n["name"]]
+        b = y.referent
+        if not isinstance(b, gtirb.CodeBlock) or b.module is not m:
+            ctx.violation("C06:new-function-symbol", "the symbol of %s does not refer to a code block of the module" % n["name"], payload)
+            continue
+        named = [u for u, s in fn.items() if s is y]
+        entered = [u for u, bs in fe.items() if any(x is b for x in bs)]
+        blocked = [u for u, bs in fb.items() if any(x is b for x in bs)]
+        if len(named) != 1 or entered != named or blocked != named:
+            ctx.violation("C06:new-function-tables", "%s: functionNames has it under %d ids, functionEntries under %d, functionBlocks under %d (all three must name the same single function)"
+                          % (n["name"], len(named), len(entered), len(blocked)), payload)
+            continue
+        u = named[0]
+        if len(fe[u]) != 1:
+            ctx.violation("C06:new-function-entries", "%s has %d entry blocks" % (n["name"], len(fe[u])), payload)
+        # the function's blocks hold exactly the body's bytes
+        asm = Assembler(m, temp_symbol_suffix="_chk", allow_undef_symbols=True)
+        asm.assemble(FUNC_BODIES[n["body"]])
+        want = bytes(asm.finalize().text_section.data)
+        got = b"".join(bytes(x.byte_interval.contents[x.offset:x.offset + x.size]) for x in sorted(fb[u], key=lambda x: x.address))
+        if got != want:
+            ctx.violation("C06:new-function-bytes", "%s: the blocks of the function hold %s, the body assembles to %s" % (n["name"], got.hex(), want.hex()), payload)
+        if any(not isinstance(x, gtirb.CodeBlock) for x in fb[u]):
+            ctx.violation("C06:data-in-function", "%s contains a data block" % n["name"], payload)
+    # the functions that were there are unchanged
+    after = tables()
+    for k, name in enumerate(("functionBlocks", "functionEntries", "functionNames")):
+        for u, v in before[k].items():
+            if not g["callers"] and after[k].get(u) != v:
+                ctx.violation("C06:old-function-changed", "%s of a function that was not touched changed" % name, payload)
+
+
 def run(ctx):
     LE.run(ctx, "C06", 1500, 40000)
+    for _ in range(ctx.budget(150, 4000)):
+        check_insert_function(ctx, gen_insert_function(ctx.rng))
 
 
 def replay(ctx, payload):
-    LE.replay(ctx, "C06", payload)
+    case = payload.get("case", payload)
+    if isinstance(case, dict) and case.get("insert_function"):
+        check_insert_function(ctx, case)
+    elif payload.get("insert_function"):
+        check_insert_function(ctx, payload)
+    else:
+        LE.replay(ctx, "C06", payload)
